@@ -39,6 +39,9 @@ def jump_groups(prefix):
 
 
 GROUPS = groups("C01", False, ("mov", "add", "addc", "sub", "cmp", "bit", "xor", "and")) + jump_groups("C01")
+GROUPS.append(Group(name="C01/msp430.disasm.symbolic_operands", unity="C01/u_dis430_sym.cpp", entry="h_dis430_sym",
+                    functions=[("get_source_reg, get_dest_reg", "disasm/msp430.cpp", "extracted verbatim; loop-free, all addresses below 64 KiB, all memory contents")],
+                    checks=CH, timeout=600))
 GROUPS.append(Group(name="C01/riscv.branch_jal_immediates", unity="C01/u_riscv_imm.cpp", entry="h_riscv_imm",
                     functions=[("permutate_branch, permutate_jal (encoder)", "asm/riscv.cpp", "extracted verbatim; loop-free, full domain"), ("permutate_branch, permutate_jal (decoder)", "disasm/riscv.cpp", "extracted verbatim; loop-free, full domain")],
                     checks=CH, timeout=600))
